@@ -240,6 +240,9 @@ pub fn gen_devcfg(r: &mut Rng, allow_eintr: bool) -> DevCfg {
 }
 
 pub fn gen_stack(r: &mut Rng) -> StackCfg {
+    if r.chance(1, 10) {
+        return StackCfg::WriteBack;
+    }
     match r.below(4) {
         0 | 1 => StackCfg::Direct,
         2 => StackCfg::Buf(*r.pick(&[1u32, 2, 3, 5, 7, 8, 16, 33, 64, 100, 128])),
